@@ -71,17 +71,18 @@ _SESSIONS: dict = {}
 
 
 def session(name: str):
-    """(configuration, neighbor, negotiated) - 'plain' (asn4), 'addpath' (asn4 + ADD-PATH send/receive), 'asn2'"""
+    """(configuration, neighbor, negotiated) - 'plain' (asn4), 'addpath' (asn4 + ADD-PATH send/receive), 'asn2', 'extnh' (RFC 8950)"""
     if name not in _SESSIONS:
         addpath = name == 'addpath'
         asn4 = name != 'asn2'
         text = exa.neighbor_text(
-            peer_ip={'plain': '127.15.0.2', 'addpath': '127.15.0.3', 'asn2': '127.15.0.4'}[name],
+            peer_ip={'plain': '127.15.0.2', 'addpath': '127.15.0.3', 'asn2': '127.15.0.4', 'extnh': '127.15.0.5'}[name],
             local_as=65000,
             peer_as=65000,
             families=['all'],
-            capability={'asn4': 'enable' if asn4 else 'disable', 'add-path': 'send/receive' if addpath else 'disable', 'aigp': 'enable', 'extended-message': 'enable'},
+            capability={'asn4': 'enable' if asn4 else 'disable', 'add-path': 'send/receive' if addpath else 'disable', 'aigp': 'enable', 'extended-message': 'enable', 'nexthop': 'enable' if name == 'extnh' else 'disable'},
             addpath_families=ADDPATH_FAMILY_TEXT if addpath else None,
+            nexthop=['ipv4 unicast ipv6', 'ipv4 mpls-vpn ipv6', 'ipv6 unicast ipv4'] if name == 'extnh' else None,
         )
         conf, neighbor = exa.neighbor_from_text(text)
         caps = [build.cap_mp(a, s) for a, s in FAMILIES]
@@ -90,6 +91,8 @@ def session(name: str):
         if addpath:
             caps.append(build.cap_addpath([(a, s, 3) for a, s in gen.ADDPATH_FAMILIES]))
         caps.append(build.cap_ext_msg())
+        if name == 'extnh':
+            caps.append(build.cap_ext_nh([(1, 1, 2), (1, 128, 2), (2, 1, 1)]))
         body = build.open_with_caps(65000, 90, 0x0A000002, caps)
         neg = exa.negotiate(neighbor, body, exa.Direction.OUT)
         if bool(neg.asn4) != asn4:
@@ -112,6 +115,15 @@ def fam_tag(fam) -> str:
     return f'nlri:{fam[0]}/{fam[1]}'
 
 
+def owner(o, method: str) -> str:
+    """the class that defines `method` for this object: the root cause of a broken law lives there, whatever the family"""
+    cls = o if isinstance(o, type) else type(o)
+    for k in cls.__mro__:
+        if method in k.__dict__:
+            return f'nlri:{k.__name__}.{method}'
+    return f'nlri:{cls.__name__}.{method}'
+
+
 def unpack_one(fam, data: bytes, action, addpath: bool, neg):
     return NLRI.unpack_nlri(AFI.from_int(fam[0]), SAFI.from_int(fam[1]), data, action, addpath, neg)
 
@@ -132,11 +144,11 @@ def try_unpack(fam, data: bytes, action, addpath: bool, neg):
     return o, left
 
 
-def pack(tag: str, o, neg) -> bytes:
+def pack(o, neg) -> bytes:
     try:
         return bytes(o.pack_nlri(neg))
     except Exception as exc:  # noqa: BLE001
-        raise V(exception_signature(f'{tag}:pack', exc), f'{exc!r} packing {o!r}') from exc
+        raise V(exception_signature(owner(o, 'pack_nlri'), exc), f'{exc!r} packing {o!r}') from exc
 
 
 def parse_json(tag: str, text: str, what: str):
@@ -145,73 +157,82 @@ def parse_json(tag: str, text: str, what: str):
             return json.loads(candidate)
         except ValueError:
             continue
-    raise V(f'{tag}:json:unparseable', f'{what}: {text[:300]}')
+    raise V(f'{tag}:unparseable', f'{what}: {text[:300]}')
 
 
-def render(tag: str, o, what: str) -> dict:
+RENDERERS = (('json', 'json', lambda o: o.json()), ('str', '__str__', lambda o: str(o)), ('extensive', 'extensive', lambda o: o.extensive() if hasattr(o, 'extensive') else ''))
+
+
+def render(o, what: str) -> dict:
     out = {}
-    for name, fn in (('json', lambda: o.json()), ('str', lambda: str(o)), ('extensive', lambda: o.extensive() if hasattr(o, 'extensive') else '')):
+    for name, method, fn in RENDERERS:
         try:
-            out[name] = fn()
+            out[name] = fn(o)
         except Exception as exc:  # noqa: BLE001
-            raise V(exception_signature(f'{tag}:{name}', exc), f'{exc!r} rendering {what}') from exc
+            raise V(exception_signature(owner(o, method), exc), f'{exc!r} rendering {what}') from exc
         if not isinstance(out[name], str):
-            raise V(f'{tag}:{name}:not-text', f'{type(out[name]).__name__} for {what}')
+            raise V(f'{owner(o, method)}:not-text', f'{type(out[name]).__name__} for {what}')
     return out
 
 
-def same(tag: str, a, b, what: str) -> None:
+def render_owner(o, name: str) -> str:
+    return owner(o, {'json': 'json', 'str': '__str__', 'extensive': 'extensive'}[name])
+
+
+def same(a, b, what: str) -> None:
     """a == b, both ways, with != agreeing; then index and hash must agree too"""
     try:
         eq = (a == b, b == a, a != b, b != a)
     except Exception as exc:  # noqa: BLE001
-        raise V(exception_signature(f'{tag}:eq', exc), f'{exc!r} comparing {what}') from exc
+        raise V(exception_signature(owner(a, '__eq__'), exc), f'{exc!r} comparing {what}') from exc
     if eq != (True, True, False, False):
-        raise V(f'{tag}:decode-not-equal', f'(a==b, b==a, a!=b, b!=a) = {eq} for {what}: {a!r} vs {b!r}')
-    equal_contract(tag, a, b, what)
+        raise V(f'{owner(a, "__eq__")}:decode-not-equal', f'(a==b, b==a, a!=b, b!=a) = {eq} for {what}: {a!r} vs {b!r}')
+    equal_contract(a, b, what)
 
 
-def index_of(tag: str, o) -> bytes:
+def index_of(o) -> bytes:
     try:
         return bytes(o.index())
     except Exception as exc:  # noqa: BLE001
-        raise V(exception_signature(f'{tag}:index', exc), f'{exc!r} for {o!r}') from exc
+        raise V(exception_signature(owner(o, 'index'), exc), f'{exc!r} for {o!r}') from exc
 
 
-def route_index(tag: str, o) -> bytes:
+def route_index(o) -> bytes:
     try:
         return bytes(Route(o, AttributeCollection(), nexthop=IP.NoNextHop).index())
     except Exception as exc:  # noqa: BLE001
-        raise V(exception_signature(f'{tag}:route-index', exc), f'{exc!r} for {o!r}') from exc
+        raise V(exception_signature('route:index', exc), f'{exc!r} for {o!r}') from exc
 
 
-def hash_of(tag: str, o) -> int:
+def hash_of(o) -> int:
     try:
         return hash(o)
     except Exception as exc:  # noqa: BLE001
-        raise V(exception_signature(f'{tag}:hash', exc), f'{exc!r} for {o!r}') from exc
+        raise V(exception_signature(owner(o, '__hash__'), exc), f'{exc!r} for {o!r}') from exc
 
 
-def equal_contract(tag: str, a, b, what: str) -> None:
-    if index_of(tag, a) != index_of(tag, b):
-        raise V(f'{tag}:equal-but-index-differs', f'{what}: {a!r} == {b!r} but index {index_of(tag, a).hex()} vs {index_of(tag, b).hex()}')
-    if route_index(tag, a) != route_index(tag, b):
+def equal_contract(a, b, what: str) -> None:
+    tag = owner(a, '__eq__')
+    if index_of(a) != index_of(b):
+        raise V(f'{tag}:equal-but-index-differs', f'{what}: {a!r} == {b!r} but index {index_of(a).hex()} vs {index_of(b).hex()}')
+    if route_index(a) != route_index(b):
         raise V(f'{tag}:equal-but-route-index-differs', f'{what}: {a!r} == {b!r}')
-    if hash_of(tag, a) != hash_of(tag, b):
-        raise V(f'{tag}:equal-but-hash-differs', f'{what}: {a!r} == {b!r} (index {index_of(tag, a).hex()}) but hash {hash_of(tag, a)} vs {hash_of(tag, b)}; bytes {bytes(a._packed).hex()} vs {bytes(b._packed).hex()}')
+    if hash_of(a) != hash_of(b):
+        raise V(f'{tag}:equal-but-hash-differs', f'{what}: {a!r} == {b!r} (index {index_of(a).hex()}) but hash {hash_of(a)} vs {hash_of(b)}')
 
 
-def distinct_contract(tag: str, field: str, a, b, what: str) -> None:
-    if index_of(tag, a) == index_of(tag, b):
-        raise V(f'{tag}:{field}-differs-but-index-shared', f'{what}: {a!r} and {b!r} share index {index_of(tag, a).hex()}')
-    if route_index(tag, a) == route_index(tag, b):
-        raise V(f'{tag}:{field}-differs-but-route-index-shared', f'{what}: {a!r} and {b!r}')
+def distinct_contract(field: str, a, b, what: str) -> None:
+    if index_of(a) == index_of(b):
+        raise V(f'{owner(a, "index")}:{field}-differs-but-index-shared', f'{what}: {a!r} and {b!r} share index {index_of(a).hex()}')
+    if route_index(a) == route_index(b):
+        raise V(f'route:index:{field}-differs-but-index-shared', f'{what}: {a!r} and {b!r}')
     try:
         eq = (a == b, a != b)
     except Exception as exc:  # noqa: BLE001
-        raise V(exception_signature(f'{tag}:eq', exc), f'{exc!r} comparing {what}') from exc
+        raise V(exception_signature(owner(a, '__eq__'), exc), f'{exc!r} comparing {what}') from exc
     if eq != (False, True):
-        raise V(f'{tag}:{field}-differs-but-equal', f'{what}: {a!r} vs {b!r} (==, !=) = {eq}')
+        # same root cause as a byte-level pair that compares equal while its index differs: == looks at fewer fields than index()
+        raise V(f'{owner(a, "__eq__")}:equal-but-index-differs', f'{what} ({field} differs): {a!r} vs {b!r} (==, !=) = {eq} although index {index_of(a).hex()} vs {index_of(b).hex()}')
 
 
 def is_trivial_nlri(fam, raw: bytes) -> bool:
@@ -223,55 +244,58 @@ def is_trivial_nlri(fam, raw: bytes) -> bool:
 
 def nlri_laws(fam, o, neg, addpath: bool, action, x: bytes | None, canonical: bool, what: str, normalise_path: bool = False) -> bytes:
     """the round-trip laws for one object; returns its canonical bytes"""
-    tag = fam_tag(fam)
-    b = pack(tag, o, neg)
+    packer = owner(o, 'pack_nlri')
+    unpacker = owner(FAMILY_CLASS[fam], 'unpack_nlri')
+    b = pack(o, neg)
     if x is not None and canonical and b != x:
-        raise V(f'{tag}:repack-differs', f'{what}: exabgp wrote {x.hex()}, decoded {o!r}, packs it back as {b.hex()}')
-    got = None
+        raise V(f'{packer}:repack-differs', f'{what}: exabgp wrote {x.hex()}, decoded {o!r}, packs it back as {b.hex()}')
     try:
-        got = unpack_one(fam, b, action, addpath, neg)
+        o1, left = unpack_one(fam, b, action, addpath, neg)
     except RecursionError:
-        raise V(f'{tag}:own-bytes-refused:RecursionError', f'{what}: {b.hex()}') from None
+        raise V(f'{packer}:own-bytes-refused:RecursionError', f'{what}: {b.hex()}') from None
     except Exception as exc:  # noqa: BLE001
-        raise V(exception_signature(f'{tag}:own-bytes-refused', exc), f'{what}: exabgp packs {o!r} as {b.hex()} and answers {exc!r} to that') from exc
-    o1, left = got
+        raise V(f'{packer}:own-bytes-refused:{type(exc).__name__}', f'{what}: exabgp packs {o!r} as {b.hex()} and answers {exc!r} to that') from exc
     if o1 is NLRI.INVALID or o1 is NLRI.EMPTY:
-        raise V(f'{tag}:own-bytes-refused:INVALID', f'{what}: exabgp packs {o!r} as {b.hex()} and decodes that as invalid')
+        raise V(f'{packer}:own-bytes-refused:INVALID', f'{what}: exabgp packs {o!r} as {b.hex()} and decodes that as invalid')
     if len(bytes(left)):
-        raise V(f'{tag}:own-bytes-not-consumed', f'{what}: {len(bytes(left))} of {len(b)} bytes left over decoding {b.hex()}')
+        raise V(f'{unpacker}:own-bytes-not-consumed', f'{what}: {len(bytes(left))} of {len(b)} bytes left over decoding {b.hex()}')
     if type(o1) is not type(o):
-        raise V(f'{tag}:decode-other-type', f'{what}: {type(o).__name__} packs to {b.hex()} which decodes as {type(o1).__name__}')
+        raise V(f'{unpacker}:decode-other-type', f'{what}: {type(o).__name__} packs to {b.hex()} which decodes as {type(o1).__name__}')
+    if (int(o1.afi), int(o1.safi)) != fam:
+        raise V(f'{unpacker}:decode-other-family', f'{what}: decoded as family {fam}, the object says {(int(o1.afi), int(o1.safi))}')
     if not normalise_path:
-        same(tag, o, o1, f'{what} bytes {b.hex()}')
-    b1 = pack(tag, o1, neg)
+        same(o, o1, f'{what} bytes {b.hex()}')
+    b1 = pack(o1, neg)
     if b1 != b:
-        raise V(f'{tag}:repack-not-idempotent', f'{what}: {b.hex()} decodes to {o1!r} which packs as {b1.hex()}')
+        raise V(f'{packer}:repack-not-idempotent', f'{what}: {b.hex()} decodes to {o1!r} which packs as {b1.hex()}')
     try:
-        o2, left2 = unpack_one(fam, b1, action, addpath, neg)
+        o2, _left2 = unpack_one(fam, b1, action, addpath, neg)
     except Exception as exc:  # noqa: BLE001
-        raise V(exception_signature(f'{tag}:second-decode', exc), f'{what}: {b1.hex()} accepted once, then {exc!r}') from exc
-    same(tag, o1, o2, f'{what} two decodes of {b.hex()}')
+        raise V(f'{unpacker}:second-decode:{type(exc).__name__}', f'{what}: {b1.hex()} accepted once, then {exc!r}') from exc
+    same(o1, o2, f'{what} two decodes of {b.hex()}')
     # renderings: twice on one object, and on two independently decoded copies
-    r1 = render(tag, o1, f'{what} {b.hex()}')
-    r1b = render(tag, o1, f'{what} {b.hex()}')
-    r2 = render(tag, o2, f'{what} {b.hex()}')
+    r1 = render(o1, f'{what} {b.hex()}')
+    r1b = render(o1, f'{what} {b.hex()}')
+    r2 = render(o2, f'{what} {b.hex()}')
     for name in r1:
         if r1[name] != r1b[name]:
-            raise V(f'{tag}:{name}:not-repeatable', f'{what} {b.hex()}: {r1[name][:200]} then {r1b[name][:200]}')
+            raise V(f'{render_owner(o1, name)}:not-repeatable', f'{what} {b.hex()}: {r1[name][:200]} then {r1b[name][:200]}')
         if r1[name] != r2[name]:
-            raise V(f'{tag}:{name}:differs-between-copies', f'{what} {b.hex()}: {r1[name][:200]} vs {r2[name][:200]}')
+            raise V(f'{render_owner(o1, name)}:differs-between-copies', f'{what} {b.hex()}: {r1[name][:200]} vs {r2[name][:200]}')
     if not normalise_path:
-        r0 = render(tag, o, what)
+        r0 = render(o, what)
         for name in r0:
             if r0[name] != r1[name]:
-                raise V(f'{tag}:{name}:changes-across-round-trip', f'{what} {b.hex()}: {r0[name][:250]} became {r1[name][:250]}')
-    parse_json(tag, r1['json'], f'{what} {b.hex()}')
+                raise V(f'{render_owner(o1, name)}:changes-across-round-trip', f'{what} {b.hex()}: {r0[name][:250]} became {r1[name][:250]}')
+    parse_json(render_owner(o1, 'json'), r1['json'], f'{what} {b.hex()}')
     return b
 
 
 def ip_layout(fam, raw: bytes, addpath: bool):
     """offsets inside one IP-family NLRI: (mask_offset, label_start, label_end, rd_offset|None, prefix_offset, prefix_bits)"""
     base = 4 if addpath else 0
+    if len(raw) <= base:
+        return None
     mask = raw[base]
     off = base + 1
     label_start = off
@@ -339,21 +363,20 @@ def variant_bytes(fam, x: bytes, addpath: bool, variant: dict) -> tuple[str, byt
 
 
 def pair_laws(fam, o, x: bytes, neg, addpath: bool, action, variant: dict, what: str) -> list[str]:
-    tag = fam_tag(fam)
     if variant['kind'] == 'family':
         other = tuple(variant['fam'])
         if other == fam or other not in FAMILY_CLASS:
             return []
-        got = try_unpack(other, x, action, addpath, neg)
+        got = try_unpack(other, x, action, addpath and other in gen.ADDPATH_FAMILIES, neg)
         if got is None or got[1]:
             return []
         o2 = got[0]
         try:
             if bytes(o2.pack_nlri(neg)) != x:
                 return []
-        except REFUSAL:
+        except Exception:  # noqa: BLE001 - the base laws report a pack that raises
             return []
-        distinct_contract(tag, 'family', o, o2, f'{what}: the bytes {x.hex()} read as {fam} and as {other}')
+        distinct_contract('family', o, o2, f'{what}: the bytes {x.hex()} read as {fam} and as {other}')
         return ['pair:family']
     made = variant_bytes(fam, x, addpath, variant)
     if made is None:
@@ -365,26 +388,27 @@ def pair_laws(fam, o, x: bytes, neg, addpath: bool, action, variant: dict, what:
     if got is None or got[1]:
         return [f'pair:{field}:variant-refused']
     o2 = got[0]
-    y1 = pack(tag, o2, neg)
+    y1 = pack(o2, neg)
+    x1 = pack(o, neg)
     text = f'{what}: {x.hex()} vs {y.hex()}'
     if field in ('path-id', 'rd', 'prefix'):
-        if y1 != y or bytes(o.pack_nlri(neg)) != x:
+        if y1 != y or x1 != x:
             return [f'pair:{field}:normalised']
-        distinct_contract(tag, field, o, o2, text)
+        distinct_contract(field, o, o2, text)
         return [f'pair:{field}']
     # label / byte: no demand on whether they are equal; if they are, index and hash have to follow
     try:
         eq = o == o2
         ne = o != o2
     except Exception as exc:  # noqa: BLE001
-        raise V(exception_signature(f'{tag}:eq', exc), f'{exc!r} comparing {text}') from exc
+        raise V(exception_signature(owner(o, '__eq__'), exc), f'{exc!r} comparing {text}') from exc
     if bool(eq) == bool(ne):
-        raise V(f'{tag}:eq-ne-disagree', f'{text}: == is {eq} and != is {ne}')
+        raise V(f'{owner(o, "__eq__")}:eq-ne-disagree', f'{text}: == is {eq} and != is {ne}')
     if eq:
-        equal_contract(tag, o, o2, text)
+        equal_contract(o, o2, text)
         return [f'pair:{field}:equal']
-    if y1 == bytes(o.pack_nlri(neg)):
-        raise V(f'{tag}:same-bytes-not-equal', f'{text}: both pack as {y1.hex()} yet compare different')
+    if y1 == x1:
+        raise V(f'{owner(o, "__eq__")}:same-bytes-not-equal', f'{text}: both pack as {y1.hex()} yet compare different')
     return [f'pair:{field}:different']
 
 
@@ -394,6 +418,7 @@ def check_nlri(case: dict) -> dict:
     tag = fam_tag(fam)
     if fam not in FAMILY_CLASS:
         return {'nontrivial': False, 'classes': ['unregistered-family']}
+    unpacker = owner(FAMILY_CLASS[fam], 'unpack_nlri')
     addpath = bool(case.get('addpath')) and fam in gen.ADDPATH_FAMILIES
     _conf, _neighbor, neg = session('addpath' if addpath else 'plain')
     action = Action.WITHDRAW if case.get('action') == 'withdraw' else Action.ANNOUNCE
@@ -405,26 +430,24 @@ def check_nlri(case: dict) -> dict:
     nontrivial = False
     first = None
     while data:
-        got = None
         try:
-            got = unpack_one(fam, data, action, addpath, neg)
+            o, left = unpack_one(fam, data, action, addpath, neg)
         except REFUSAL as exc:
             if encoder:
-                raise V(exception_signature(f'{tag}:encoder-bytes-refused', exc), f'{source}: {exc!r} for {data.hex()} (addpath={addpath})') from exc
+                raise V(f'{unpacker}:encoder-bytes-refused:{type(exc).__name__}', f'{source}: {exc!r} for {data.hex()} (family {fam} addpath={addpath})') from exc
             break
         except RecursionError:
             break
-        o, left = got
         left = bytes(left)
         if len(left) >= len(data) or not data.endswith(left):
             if encoder:
-                raise V(f'{tag}:no-progress', f'{source}: nothing consumed from {data.hex()}')
+                raise V(f'{unpacker}:no-progress', f'{source}: nothing consumed from {data.hex()}')
             break
         x = data[: len(data) - len(left)]
         data = left
         if o is NLRI.INVALID or o is NLRI.EMPTY:
             if encoder:
-                raise V(f'{tag}:encoder-bytes-refused:INVALID', f'{source}: {x.hex()} decodes as invalid')
+                raise V(f'{unpacker}:encoder-bytes-refused:INVALID', f'{source}: {x.hex()} decodes as invalid (family {fam})')
             continue
         count += 1
         what = f'{source} {fam} addpath={addpath}'
@@ -451,19 +474,39 @@ def check_nlri(case: dict) -> dict:
 # ---------------------------------------------------------------------------- attribute laws
 
 
-def split_tlv(tag: str, tlv: bytes) -> tuple[int, int, bytes]:
-    if len(tlv) < 3:
-        raise V(f'{tag}:pack:short', tlv.hex())
-    flag, code = tlv[0], tlv[1]
-    if flag & 0x10:
-        if len(tlv) < 4:
-            raise V(f'{tag}:pack:short', tlv.hex())
-        length, value = struct.unpack('!H', tlv[2:4])[0], tlv[4:]
-    else:
-        length, value = tlv[2], tlv[3:]
-    if length != len(value):
-        raise V(f'{tag}:pack:length-field', f'header says {length}, value is {len(value)} bytes: {tlv[:40].hex()}')
-    return flag, code, value
+COMPANION = {2: 17, 7: 18}  # RFC 6793: towards a 2-byte peer AS_PATH / AGGREGATOR travel with their AS4_ twin
+
+
+def split_tlvs(tag: str, blob: bytes) -> list[tuple[int, int, bytes]]:
+    out = []
+    data = blob
+    while data:
+        if len(data) < 3:
+            raise V(f'{tag}:pack:short', blob.hex())
+        flag, code = data[0], data[1]
+        if flag & 0x10:
+            if len(data) < 4:
+                raise V(f'{tag}:pack:short', blob.hex())
+            length, rest = struct.unpack('!H', data[2:4])[0], data[4:]
+        else:
+            length, rest = data[2], data[3:]
+        if length > len(rest):
+            raise V(f'{tag}:pack:length-field', f'header says {length}, only {len(rest)} bytes follow: {blob[:60].hex()}')
+        out.append((flag, code, rest[:length]))
+        data = rest[length:]
+    return out
+
+
+def split_tlv(tag: str, blob: bytes, code: int) -> tuple[int, bytes, bool]:
+    """(flags, value, companion present) of the attribute `code` inside what pack_attribute returned"""
+    parts = split_tlvs(tag, blob)
+    mine = [p for p in parts if p[1] == code]
+    others = [p for p in parts if p[1] != code]
+    if len(mine) != 1:
+        raise V(f'{tag}:pack:other-code', f'packs as codes {[p[1] for p in parts]}: {blob[:60].hex()}')
+    if any(p[1] != COMPANION.get(code) for p in others):
+        raise V(f'{tag}:pack:other-code', f'packs as codes {[p[1] for p in parts]}: {blob[:60].hex()}')
+    return mine[0][0], mine[0][2], bool(others)
 
 
 def attr_render(tag: str, a, what: str) -> dict:
@@ -507,9 +550,7 @@ def attr_laws(code: int, flag: int, a, neg, x: bytes | None, canonical: bool, wh
         if x:
             raise V(f'{tag}:packs-to-nothing', f'{what}: value {x.hex()} decoded to {a!r} which packs as no attribute at all')
         return None
-    pflag, pcode, b = split_tlv(tag, tlv)
-    if pcode != code:
-        raise V(f'{tag}:pack:other-code', f'{what}: packs with code {pcode}')
+    pflag, b, companion = split_tlv(tag, tlv, code)
     if x is not None and canonical and b != x:
         raise V(f'{tag}:repack-differs', f'{what}: exabgp wrote {x.hex()}, decoded {a!r}, packs it back as {b.hex()}')
     if x is not None and canonical and (pflag & 0xC0) != (flag & 0xC0):
@@ -523,12 +564,18 @@ def attr_laws(code: int, flag: int, a, neg, x: bytes | None, canonical: bool, wh
         raise V(exception_signature(f'{tag}:own-bytes-refused', exc), f'{what}: exabgp packs {a!r} as {b.hex()} (flags {pflag:#x}) and answers {exc!r} to that') from exc
     if type(a1) is not type(a):
         raise V(f'{tag}:decode-other-type', f'{what}: {type(a).__name__} packs to {b.hex()} which decodes as {type(a1).__name__}')
-    attr_same(tag, a, a1, f'{what} value {b.hex()}')
+    if not companion:
+        attr_same(tag, a, a1, f'{what} value {b.hex()}')
     try:
         tlv1 = bytes(a1.pack_attribute(neg))
     except Exception as exc:  # noqa: BLE001
         raise V(exception_signature(f'{tag}:pack', exc), f'{exc!r} re-packing {what}: {a1!r}') from exc
-    if tlv1 != tlv:
+    if companion:
+        # the 4-byte ASNs went into the AS4_ twin: what is left is the AS_TRANS view, which has to be stable from here on
+        b1 = split_tlv(tag, tlv1, code)[1]
+        if b1 != b:
+            raise V(f'{tag}:repack-not-idempotent', f'{what}: {b.hex()} decodes to {a1!r} which packs as {b1.hex()}')
+    elif tlv1 != tlv:
         raise V(f'{tag}:repack-not-idempotent', f'{what}: {tlv.hex()} decodes to {a1!r} which packs as {tlv1.hex()}')
     a2 = attr_unpack(code, uflag, b, neg)
     attr_same(tag, a1, a2, f'{what} two decodes of {b.hex()}')
@@ -541,10 +588,10 @@ def attr_laws(code: int, flag: int, a, neg, x: bytes | None, canonical: bool, wh
             raise V(f'{tag}:{name}:not-repeatable', f'{what} {b.hex()}: {r1[name][:200]} then {r1b[name][:200]}')
         if r1[name] != r2[name]:
             raise V(f'{tag}:{name}:differs-between-copies', f'{what} {b.hex()}: {r1[name][:200]} vs {r2[name][:200]}')
-        if r0[name] != r1[name]:
+        if r0[name] != r1[name] and not companion:
             raise V(f'{tag}:{name}:changes-across-round-trip', f'{what} {b.hex()}: {r0[name][:250]} became {r1[name][:250]}')
     if r1['json']:
-        parse_json(tag, r1['json'], f'{what} {b.hex()}')
+        parse_json(f'{tag}:json', r1['json'], f'{what} {b.hex()}')
     return b
 
 
@@ -573,15 +620,15 @@ def check_attr(case: dict) -> dict:
         except REFUSAL:
             return {'nontrivial': False, 'classes': classes + ['attr:generic:refused']}
         tlv = bytes(a.pack_attribute(neg))
-        pflag, pcode, b = split_tlv('attr:generic', tlv)
-        if pcode != code or b != x:
-            raise V('attr:generic:repack-differs', f'{what}: {x.hex()} packs back as code {pcode} value {b.hex()}')
+        pflag, b, _companion = split_tlv('attr:generic', tlv, code)
+        if b != x:
+            raise V('attr:generic:repack-differs', f'{what}: {x.hex()} packs back as {b.hex()}')
         a1 = GenericAttribute.make_generic(code, flag | 0x20, b)
         attr_same('attr:generic', a, a1, what)
         r, r1 = attr_render('attr:generic', a, what), attr_render('attr:generic', a1, what)
         if r != r1:
             raise V('attr:generic:render-differs-between-copies', f'{what}: {r} vs {r1}')
-        parse_json('attr:generic', r['json'], what)
+        parse_json('attr:generic:json', r['json'], what)
         return {'nontrivial': bool(x), 'classes': classes + ['attr:generic']}
     try:
         a = attr_unpack(code, flag, x, neg)
@@ -603,54 +650,58 @@ def check_attr(case: dict) -> dict:
 # ---------------------------------------------------------------------------- whole routes (text born) and whole UPDATEs
 
 
-def message_round_trip(tag: str, nlri, nexthop, attributes, neg, what: str, withdraw: bool = False) -> list[str]:
-    """the project's own self check (configuration.check.check_generation), with the comparison done on objects and bytes"""
-    try:
+def message_round_trip(nlri, nexthop, attributes, neg, what: str, withdraw: bool = False):
+    """the project's own self check (configuration.check.check_generation), with the comparison done on objects and bytes.
+
+    Returns a list of classes when there is nothing to compare, else (classes, nlri read back, attributes read back)."""
+    tag = 'message:withdraw' if withdraw else 'message:announce'
+
+    def write(n, nh, attrs):
         if withdraw:
-            msgs = [bytes(m) for m in UpdateCollection([], [nlri], attributes).messages(neg)]
-        else:
-            msgs = [bytes(m) for m in UpdateCollection([RoutedNLRI(nlri, nexthop)], [], attributes).messages(neg)]
+            return [bytes(m) for m in UpdateCollection([], [n], attrs).messages(neg)]
+        return [bytes(m) for m in UpdateCollection([RoutedNLRI(n, nh)], [], attrs).messages(neg)]
+
+    try:
+        msgs = write(nlri, nexthop, attributes)
+    except NotImplementedError:
+        return ['message:attribute-without-encoder']  # reported by the attribute's own law
     except Exception as exc:  # noqa: BLE001
-        raise V(exception_signature(f'{tag}:message:encode', exc), f'{exc!r} for {what}') from exc
+        raise V(exception_signature(f'{tag}:encode', exc), f'{exc!r} for {what}') from exc
     if len(msgs) != 1:
         return [f'message:{len(msgs)}-messages']
     m1 = msgs[0]
     try:
         upd = UpdateCollection.unpack_message(m1[19:], neg)
         got = list(upd.withdraws if withdraw else upd.announces)
+        a2 = upd.attributes
     except Exception as exc:  # noqa: BLE001
-        raise V(exception_signature(f'{tag}:message:own-bytes-refused', exc), f'{what}: exabgp wrote {m1.hex()} and answers {exc!r} to that') from exc
+        raise V(exception_signature(f'{tag}:own-bytes-refused', exc), f'{what}: exabgp wrote {m1.hex()} and answers {exc!r} to that') from exc
     if len(got) != 1:
-        raise V(f'{tag}:message:nlri-count', f'{what}: one route written as {m1.hex()}, {len(got)} routes read back')
+        raise V(f'{tag}:nlri-count', f'{what}: one route written as {m1.hex()}, {len(got)} routes read back')
     n2 = got[0] if withdraw else got[0].nlri
     if type(n2) is not type(nlri):
-        raise V(f'{tag}:message:decode-other-type', f'{what}: {type(nlri).__name__} read back as {type(n2).__name__} from {m1.hex()}')
-    return_classes = ['message:withdraw' if withdraw else 'message:announce']
-    a2 = upd.attributes
+        raise V(f'{tag}:decode-other-type', f'{what}: {type(nlri).__name__} read back as {type(n2).__name__} from {m1.hex()}')
     try:
-        if withdraw:
-            m2 = [bytes(m) for m in UpdateCollection([], [n2], a2).messages(neg)]
-        else:
-            m2 = [bytes(m) for m in UpdateCollection([RoutedNLRI(n2, got[0].nexthop)], [], a2).messages(neg)]
+        m2 = write(n2, None if withdraw else got[0].nexthop, a2)
     except Exception as exc:  # noqa: BLE001
-        raise V(exception_signature(f'{tag}:message:re-encode', exc), f'{exc!r} for {what} read back from {m1.hex()}') from exc
+        raise V(exception_signature(f'{tag}:re-encode', exc), f'{exc!r} for {what} read back from {m1.hex()}') from exc
     if m2 != [m1]:
-        raise V(f'{tag}:message:repack-differs', f'{what}: wrote {m1.hex()}, read it, wrote {[m.hex() for m in m2]}')
-    return return_classes, n2, a2
+        raise V(f'{tag}:repack-differs', f'{what}: wrote {m1.hex()}, read it, wrote {[m.hex() for m in m2]}')
+    return [tag], n2, a2
 
 
 def route_laws(route, session_name: str, what: str) -> tuple[bool, list[str]]:
     conf, neighbor, neg = session(session_name)
-    addpath_session = session_name == 'addpath'
     nlri = route.nlri
     fam = (int(nlri.afi), int(nlri.safi))
     tag = fam_tag(fam)
     classes = []
     if fam not in FAMILY_CLASS:
         return False, ['route:unregistered-family']
-    addpath = addpath_session and fam in gen.ADDPATH_FAMILIES
-    has_path = getattr(nlri, 'path_info', None) is not None and bool(getattr(nlri, '_has_addpath', False))
-    normalise = addpath and not has_path
+    addpath = session_name == 'addpath' and fam in gen.ADDPATH_FAMILIES
+    has_path = bool(getattr(nlri, '_has_addpath', False))
+    # a path-id the session cannot carry is dropped, a missing one is sent as 0: one normalisation, then idempotent
+    normalise = has_path != addpath
     b = nlri_laws(fam, nlri, neg, addpath, Action.ANNOUNCE, None, False, what, normalise_path=normalise)
     classes += [tag, f'{tag}:{type(nlri).__name__}', f'{tag}:text']
     if addpath:
@@ -676,31 +727,35 @@ def route_laws(route, session_name: str, what: str) -> tuple[bool, list[str]]:
         resolved = neighbor.resolve_self(route)
     except Exception:  # noqa: BLE001 - next-hop self with no usable local address is not this property's subject
         return not is_trivial_nlri(fam, b), classes + ['route:self-unresolved']
+    nh = resolved.nexthop
+    if fam in gen.IP_FAMILIES and nh is not IP.NoNextHop and int(getattr(nh, 'afi', fam[0])) != fam[0]:
+        if session_name != 'plain' or fam not in ((1, 1), (1, 128), (2, 1)):
+            return not is_trivial_nlri(fam, b), classes + ['route:nexthop-of-other-afi']
+        conf, neighbor, neg = session('extnh')  # RFC 8950 has to be negotiated for this next hop to be legal
+        classes.append('route:extended-nexthop')
     for withdraw in (False, True):
-        res = message_round_trip(tag, resolved.nlri, resolved.nexthop, resolved.attributes, neg, what, withdraw)
+        res = message_round_trip(resolved.nlri, nh, resolved.attributes, neg, what, withdraw)
         if isinstance(res, list):
             classes += res
             continue
         mclasses, n2, a2 = res
         classes += mclasses
+        if fam != (1, 1):
+            classes.append('attr:15' if withdraw else 'attr:14')
         if not normalise:
-            same(tag, resolved.nlri, n2, f'{what} through a whole UPDATE')
-            r2 = Route(n2, a2, nexthop=IP.NoNextHop)
-            if bytes(r2.index()) != bytes(Route(resolved.nlri, resolved.attributes).index()):
-                raise V(f'{tag}:route-index-changes-across-round-trip', what)
+            same(resolved.nlri, n2, f'{what} through a whole UPDATE')
+            if bytes(Route(n2, a2, nexthop=IP.NoNextHop).index()) != bytes(Route(resolved.nlri, resolved.attributes).index()):
+                raise V('route:index:changes-across-round-trip', what)
         if not withdraw:
             for code in sorted(resolved.attributes):
                 if code > 0xFF or code in (3, 14, 15):
                     continue
                 a = resolved.attributes[code]
                 if code not in a2:
-                    # LOCAL_PREF to an eBGP peer and the like are dropped on purpose; the sessions here are iBGP
                     raise V(f'attr:{code}:message:lost', f'{what}: attribute {code} {a!r} is not in what was read back')
                 if isinstance(a, GenericAttribute):
                     continue
                 attr_same(f'attr:{code}:message', a, a2[code], f'{what} attribute {code} through a whole UPDATE')
-        if fam != (1, 1):
-            classes.append('attr:15' if withdraw else 'attr:14')
     return not is_trivial_nlri(fam, b), classes
 
 
@@ -764,7 +819,7 @@ def check_message(case: dict) -> dict:
     """a whole UPDATE body from the qa vectors: decode, re-encode every route on its own, decode again"""
     exa.reset_global_state()
     body = bytes.fromhex(case['hex'])
-    sess = 'addpath' if case.get('addpath') else ('plain' if case.get('asn4', True) else 'asn2')
+    sess = 'extnh' if case.get('extnh') else ('addpath' if case.get('addpath') else ('plain' if case.get('asn4', True) else 'asn2'))
     _conf, _neighbor, neg = session(sess)
     source = case.get('source', '?')
     encoder = bool(case.get('encoder'))
@@ -781,24 +836,24 @@ def check_message(case: dict) -> dict:
     done = 0
     for routed in announces[:4]:
         fam = (int(routed.nlri.afi), int(routed.nlri.safi))
-        res = message_round_trip(fam_tag(fam), routed.nlri, routed.nexthop, attributes, neg, f'{source} {routed.nlri!r}')
+        res = message_round_trip(routed.nlri, routed.nexthop, attributes, neg, f'{source} {routed.nlri!r}')
         if isinstance(res, list):
             classes += res
             continue
         _c, n2, _a2 = res
-        same(fam_tag(fam), routed.nlri, n2, f'{source} through a whole UPDATE')
+        same(routed.nlri, n2, f'{source} through a whole UPDATE')
         classes += ['message:announce', fam_tag(fam) + ':message']
         if fam != (1, 1):
             classes.append('attr:14')
         done += 1
     for nlri in withdraws[:4]:
         fam = (int(nlri.afi), int(nlri.safi))
-        res = message_round_trip(fam_tag(fam), nlri, IP.NoNextHop, AttributeCollection(), neg, f'{source} withdraw {nlri!r}', withdraw=True)
+        res = message_round_trip(nlri, IP.NoNextHop, AttributeCollection(), neg, f'{source} withdraw {nlri!r}', withdraw=True)
         if isinstance(res, list):
             classes += res
             continue
         _c, n2, _a2 = res
-        same(fam_tag(fam), nlri, n2, f'{source} withdraw through a whole UPDATE')
+        same(nlri, n2, f'{source} withdraw through a whole UPDATE')
         classes += ['message:withdraw', fam_tag(fam) + ':message']
         if fam != (1, 1):
             classes.append('attr:15')
